@@ -99,6 +99,8 @@ class Check:
         sys.exit(1 if new else 0)
 
     def _write_evidence(self, explanation, checker_cmd, nviol, broken=False, known_hits=0):
+        if os.environ.get("VERIF_NO_EVIDENCE"):
+            return   # scratch-copy runs (mutants, seeded changes) never touch the evidence of /repo
         n_ok = sum(1 for _, ok, _ in self.obligations if ok)
         cov = {
             "explanation": explanation,
